@@ -7,6 +7,11 @@ from . import common, corpus, gen, harness, outcheck
 from . import ilfront as IL
 
 
+def _sample(rng, pop, k):
+    pop = list(pop)
+    return rng.sample(pop, min(len(pop), max(0, int(k))))
+
+
 def generated_items(seed, tier, bias, scale=1.0):
     """bias: 'sorts' | 'own' | 'wf' | 'layouts' - which constructs to stress"""
     rng = random.Random(seed)
@@ -22,25 +27,34 @@ def generated_items(seed, tier, bias, scale=1.0):
     ops = gen.ops_matrix()
     casts = gen.cast_matrix()
     k = int(120 * scale) if tier == "quick" else len(ops)
-    for name, text in rng.sample(ops, k):
+    for name, text in _sample(rng, ops, k):
         items.append(dict(name="op:" + name, text=text))
     k = int(60 * scale) if tier == "quick" else len(casts)
-    for name, text in rng.sample(casts, k):
+    for name, text in _sample(rng, casts, k):
         items.append(dict(name="cv:" + name, text=text))
     for name, text in casts:
         if name.startswith("bool") and not any(it["text"] == text for it in items):
             items.append(dict(name="cv:" + name, text=text))  # typed declarations / casts with a boolean source: always all of them
     calls = gen.cast_call_matrix()
-    for it in rng.sample(calls, int(24 * scale) if tier == "quick" else len(calls)):
+    for it in _sample(rng, calls, int(24 * scale) if tier == "quick" else len(calls)):
         it = dict(it)
         it["name"] = "call:" + it["name"]
         items.append(it)
+    # the directed families of C05/C06 (hybrids in arms, conditions, arguments, loops; unbraced arms; statement-expressions in both arms)
+    for it in gen.hybrid_programs(random.Random(seed), 0):
+        if tier == "thorough" or not it["name"].startswith("se;") or rng.random() < 0.4:
+            items.append(dict(name="hyb:" + it["name"], text=it["text"], subs=it.get("subs", [])))
+    for c in ("(RsV > 5)", "(RsV + RtV)", "(RsV && RtV)", "RsV", "!RtV", "(clz32(RsV) > 3)"):
+        items.append(dict(name=f"sethen:{c}", text=f"{{ RdV = {c} ? ({{ set_usr_field(bundle, HEX_REG_FIELD_USR_OVF, 1); 7; }}) : RsV; }}"))
+        items.append(dict(name=f"seelse:{c}", text=f"{{ RdV = {c} ? RtV : ({{ set_usr_field(bundle, HEX_REG_FIELD_USR_OVF, 1); 7; }}); }}"))
+        items.append(dict(name=f"seboth:{c}", text=f"{{ int32_t a = RtV; RdV = {c} ? ({{ a = a + 1; a; }}) : ({{ a = a - 1; 3; }}); ReV = a; }}"))
+        items.append(dict(name=f"senest:{c}", text=f"{{ RdV = (RtV > 1) ? ({c} ? ({{ set_usr_field(bundle, HEX_REG_FIELD_USR_OVF, 1); 7; }}) : 2) : RsV; }}"))
     if bias in ("own", "wf", "sorts"):
         # every operand spelling (names with ':' and '_NEW', aliases, .new registers) in read, arithmetic, address and data position
         from .checks import c07
 
         sp = c07.spellings()
-        for it in (sp if tier == "thorough" else rng.sample(sp, int(140 * scale))):
+        for it in (sp if tier == "thorough" else _sample(rng, sp, int(140 * scale))):
             items.append(dict(name="sp:" + it["name"], text=it["text"]))
     if bias in ("own", "wf"):
         # constant folding that discards operands (C11/C12 quantifier)
@@ -62,7 +76,7 @@ def generated_items(seed, tier, bias, scale=1.0):
                 e = f"({e} {rng.choice(gen.BINOPS)} {rng.choice([r, r, 'RtV', '3'])})"
             items.append(dict(name=f"reuse{i}", text=f"{{ int32_t q = {r}; RddV = {e} + q + q; if ({r} > q) {{ ReV = q + {r}; }} }}"))
     if bias == "sorts":
-        for name, text in rng.sample(gen.chained_assignments(rng, False), 40 if tier == "quick" else 200):
+        for name, text in _sample(rng, gen.chained_assignments(rng, False), 40 if tier == "quick" else 200):
             items.append(dict(name="chain:" + name, text=text))
         for k, text in enumerate(["{ RddV = ReV = RsV; }", "{ int64_t a; int32_t b; a = b = RsV; RddV = a; }", "{ ReV = PdV = RsV; }", "{ int8_t a; uint64_t b; RyyV = b = a = RsV; }"]):
             items.append(dict(name=f"chainreg{k}", text=text))
